@@ -29,7 +29,10 @@ Calls == <<
   [fn |-> "mtl", losses |-> <<L3, L2>>, feats |-> <<F>>, tparams |-> <<{T1, U1, U2}, {T2}>>, shared |-> {A, Bb}, w |-> <<-1, 2>>],
   [fn |-> "backward", tensors |-> <<L3>>, inputs |-> {U1, U2, A}, w |-> <<3>>],
   \* a frozen trunk: no shared parameter at all, only the heads are updated
-  [fn |-> "mtl", losses |-> <<L1, L2>>, feats |-> <<F>>, tparams |-> <<{T1}, {T2}>>, shared |-> {}, w |-> <<1, 1>>] >>
+  [fn |-> "mtl", losses |-> <<L1, L2>>, feats |-> <<F>>, tparams |-> <<{T1}, {T2}>>, shared |-> {}, w |-> <<1, 1>>],
+  \* parameters listed by a task whose loss does not depend on them (a branch switched off in this
+  \* forward pass): C by task 1 only, T1 by task 2 only - their update is zero, a .grad is created all the same
+  [fn |-> "mtl", losses |-> <<L1, L2>>, feats |-> <<F>>, tparams |-> <<{T2, C}, {T1}>>, shared |-> {A}, w |-> <<2, 1>>] >>
 EditLeaves == {A, T1, C}
 
 Requested(c) == IF c.fn = "backward" THEN c.inputs
